@@ -947,6 +947,26 @@ def fixed_cases():
                           {"op": "add", "sig": b0, "a": {"sc": [False, 4, 0]}}, {"op": "reset", "sig": {"b": 1}, "ka": None},
                           {"op": "add", "sig": {"b": 1}, "a": {"sc": [False, 4, 0]}}, {"op": "add", "sig": {"b": 1}, "a": {"ext": 0}},
                           {"op": "add", "sig": s(0), "a": {"sc": [False, 1, 0]}}]}))
+    # the SAME slice objects used again after somebody else replaced / dropped the base's sensitivity array (base reset + base add,
+    # direct assignment on the base, another slice re-creating the zero array first): every add goes to the CURRENT array
+    sl_a, sl_b = {"p": b0, "k": "basic", "sl": [0, 3, None]}, {"p": b0, "k": "basic", "sl": [5, 9, 2]}
+    sl_n = {"p": s(0), "k": "basic", "sl": [1, None, None]}
+    cases.append(("owned", {"slices": [sl_a, sl_b, sl_n],
+                  "ops": [x10, {"op": "add", "sig": s(0), "a": _new([3], [1, 2, 3])}, {"op": "add", "sig": s(1), "a": {"sc": [False, 4, 0]}},
+                          {"op": "reset", "sig": b0, "ka": None}, {"op": "add", "sig": b0, "a": _new([10], list(range(10, 20)))},
+                          {"op": "add", "sig": s(0), "a": _new([3], [100, 200, 300])}, {"op": "add", "sig": s(2), "a": {"sc": [False, 7, 0]}},
+                          {"op": "set_sens", "sig": b0, "a": _new([10], [1] * 10)}, {"op": "add", "sig": s(1), "a": _new([2], [50, 60])},
+                          {"op": "add", "sig": s(0), "a": {"sc": [False, 1000, 0]}}, {"op": "reset", "sig": b0, "ka": None},
+                          {"op": "add", "sig": s(1), "a": {"sc": [False, 2, 0]}}, {"op": "add", "sig": s(0), "a": _new([3], [5, 6, 7])},
+                          {"op": "add", "sig": s(2), "a": _new([2], [8, 9])}]}))
+    cases.append(("owned", {"slices": [{"p": b0, "k": "tuple", "sl": [[None, None, None], [0, 2, None]]}, {"p": b0, "k": "tuple", "sl": [[1, None, None]]},
+                                      {"p": s(0), "k": "tuple", "sl": [[0, 1, None]]}],
+                  "ops": [{"op": "new_signal", "st": _new([2, 3], [1, 2, 3, 4, 5, 6], [0, 1, 0, 1, 0, 1]), "se": None},
+                          {"op": "add", "sig": s(0), "a": _new([2, 2], [1, 2, 3, 4], [1, 1, 1, 1])}, {"op": "add", "sig": s(2), "a": {"sc": [True, 0, 1]}},
+                          {"op": "set_sens", "sig": b0, "a": _new([2, 3], [9, 8, 7, 6, 5, 4], [0, 0, 0, 0, 0, 0])},
+                          {"op": "add", "sig": s(0), "a": {"sc": [True, 1, 1]}}, {"op": "add", "sig": s(1), "a": _new([3], [1, 1, 1], [2, 2, 2])},
+                          {"op": "reset", "sig": b0, "ka": None}, {"op": "add", "sig": s(2), "a": {"sc": [False, 3, 0]}},
+                          {"op": "add", "sig": s(0), "a": _new([2, 2], [1, 0, 0, 1], [0, 0, 0, 0])}]}))
     return [(st, {"m": "c18.run", **c}) for st, c in cases]
 
 
